@@ -58,8 +58,9 @@ IntRes(b, i) == IF b = 0 /\ (i > Bound \/ i < -Bound) THEN XUnk
                 ELSE IF (b # 0) /\ (i > Bound \/ i < -Bound) THEN XUnk
                 ELSE [t |-> "int", b |-> b, i |-> i]
 
+Large(x) == x.b = 0 /\ (x.i > Bound \/ x.i < -Bound)       \* an ordinary integer too large for the model's arithmetic (TLC integers are 32-bit)
 IAdd(x, y) ==
-  IF x.b \in {2, 3, 4} \/ y.b \in {2, 3, 4} THEN XUnk
+  IF x.b \in {2, 3, 4} \/ y.b \in {2, 3, 4} \/ Large(x) \/ Large(y) THEN XUnk
   ELSE IF x.b = 0 /\ y.b = 0 THEN IntRes(0, x.i + y.i)
   ELSE IF x.b # 0 /\ y.b = 0 THEN IntRes(x.b, x.i + y.i)
   ELSE IF x.b = 0 /\ y.b # 0 THEN IntRes(y.b, x.i + y.i)
@@ -67,20 +68,23 @@ IAdd(x, y) ==
   ELSE IntRes(0, x.i + y.i - 1)                     \* MAX + MIN = -1
 
 INeg(x) ==
-  IF x.b = 0 THEN IntRes(0, -x.i)
+  IF x.b \in {2, 3, 4} THEN XUnk
+  ELSE IF x.b = 0 THEN IntRes(0, -x.i)
   ELSE IF x.b = 1 THEN IntRes(-1, 1 - x.i)           \* -(MAX + i) = MIN + 1 - i
   ELSE IF x.i = 0 THEN XOvf                          \* -MIN
   ELSE IntRes(1, 1 - x.i)                            \* -(MIN + i) = MAX + 1 - i
 
 ISub(x, y) ==
-  IF y.b = 0 THEN IAdd(x, IntV(-y.i))
+  IF Large(x) \/ Large(y) THEN XUnk
+  ELSE IF y.b = 0 THEN IAdd(x, IntV(-y.i))
   ELSE IF x.b = y.b THEN IntRes(0, x.i - y.i)
   ELSE IF x.b = 0 /\ y.b = 1 THEN IntRes(-1, x.i - y.i + 1)      \* x - (MAX + j) = MIN + 1 + x - j
   ELSE IF x.b = 0 /\ y.b = -1 THEN IntRes(1, x.i - y.i + 1)      \* x - (MIN + j) = MAX + 1 + x - j
   ELSE XOvf                                                      \* MAX-ish - MIN-ish or the reverse
 
 IMul(x, y) ==
-  IF x.b = 0 /\ y.b = 0 THEN IntRes(0, x.i * y.i)
+  IF Large(x) \/ Large(y) \/ (x.b = 0 /\ y.b = 0 /\ (x.i > 30000 \/ x.i < -30000 \/ y.i > 30000 \/ y.i < -30000)) THEN XUnk
+  ELSE IF x.b = 0 /\ y.b = 0 THEN IntRes(0, x.i * y.i)
   ELSE LET big == IF x.b # 0 THEN x ELSE y
            sm  == IF x.b # 0 THEN y ELSE x
        IN IF sm.b # 0 THEN XOvf
@@ -94,6 +98,7 @@ TruncDiv(a, b) == IF (a >= 0) = (b > 0) THEN (IF a >= 0 THEN a \div b ELSE (-a) 
 
 IDiv(x, y) ==
   IF y.b = 0 /\ y.i = 0 THEN XDiv0
+  ELSE IF Large(x) \/ Large(y) THEN XUnk
   ELSE IF x.b = 0 /\ y.b = 0 THEN IntRes(0, TruncDiv(x.i, y.i))
   ELSE IF y.b = 0 /\ y.i = 1 THEN x
   ELSE IF y.b = 0 /\ y.i = -1 THEN INeg(x)
